@@ -209,7 +209,7 @@ class Check(object):
 
     def save_replay(self, ob_or_name, data, src=None):
         name = ob_or_name.name if isinstance(ob_or_name, Ob) else ob_or_name
-        d = os.path.join(VERIF, 'replays', self.pid)
+        d = os.path.join(os.environ.get('VERIF_REPLAY_DIR') or os.path.join(VERIF, 'replays'), self.pid)
         os.makedirs(d, exist_ok=True)
         h = hashlib.sha1(name.encode()).hexdigest()[:8]
         base = os.path.join(d, '%s-%s' % (''.join(c if c.isalnum() else '_' for c in name)[:60], h))
@@ -225,6 +225,10 @@ class Check(object):
         pending = [ob for ob in self.obs if ob.result is None]
         if pending:
             self.solve_all()
+        for w_ in self._world.values():
+            for c in w_.ex.called:
+                if c in w_.prog.functions:
+                    self.functions.add(c)
         props = [ob for ob in self.obs if ob.kind in ('prop', 'lemma')]
         wit = [ob for ob in self.obs if ob.kind == 'witness']
         discharged = [ob for ob in props if ob.status == 'discharged']
@@ -277,8 +281,9 @@ class Check(object):
         cov.update(self.extra_cov)
         ev = dict(property_id=self.pid, tier=self.tier, seed=self.seed, level=self.level, coverage=cov,
                   assumptions=self.assumptions, wall_s=round(time.time() - self.t0, 2), violations=len(self.violations))
-        os.makedirs(os.path.join(VERIF, 'evidence'), exist_ok=True)
-        with open(os.path.join(VERIF, 'evidence', self.pid + '.json'), 'w') as fh:
+        evdir = os.environ.get('VERIF_EVIDENCE_DIR') or os.path.join(VERIF, 'evidence')
+        os.makedirs(evdir, exist_ok=True)
+        with open(os.path.join(evdir, self.pid + '.json'), 'w') as fh:
             json.dump(ev, fh, indent=1, default=str)
         print('%s tier=%s obligations=%d discharged=%d undecided=%d inconclusive=%d known=%d violations=%d witnesses=%d/%d solver=%.1fs wall=%.1fs' % (
             self.pid, self.tier, len(props), len(discharged), len(self.undecided), len(self.inconclusive), len(self.known_hits),
